@@ -83,6 +83,10 @@ CheckRootCase(c) ==
   LET id == c.id IN
   IF c.res.k # "obs" THEN Verdict(id, "root: result-kind " \o c.res.k, FALSE)
   ELSE IF c.res.o.value = "nan" THEN Verdict(id, "root: the returned central value is not a number", FALSE)
+  \* named deviation (recorded finding): the solver gave up and its starting point came back as if it were the root
+  ELSE IF "guess" \in DOMAIN c /\ c.res.o.value = c.guess
+          /\ ~RClose(Eval(c.f, <<c.guess>> \o Values(c.ops)), "0", "0", RMul("1/1000", RAdd("1", AVal(c.f, <<c.guess>> \o Values(c.ops)))))
+       THEN Known(id, "find_root returns its starting point without any error when the solver fails to converge")
   ELSE LET x == c.res.o.value
            dvals == Values(c.ops)
            vals == <<x>> \o dvals
